@@ -29,7 +29,7 @@ impl Monitor for C15 {
         vec!["successful add_parent calls are acyclic; ids < 10^7; one name per term id".into()]
     }
     fn plan(&self, tier: Tier) -> Vec<String> {
-        let mut v: Vec<String> = (0..12).map(|i| format!("cat:{i}")).collect();
+        let mut v: Vec<String> = (0..14).map(|i| format!("cat:{i}")).collect();
         for i in 0..tier.pick(6000, 150_000) {
             v.push(format!("rnd:{i}"));
         }
@@ -48,6 +48,7 @@ impl Monitor for C15 {
             "build/minimal",
             "build/with_defaults",
             "history_without_failing_call",
+            "history_with_more_than_65535_terms",
         ]
         .iter()
         .map(|s| (*s).to_string())
@@ -81,6 +82,17 @@ impl Monitor for C15 {
             if !present.contains(&id) && id != 118 {
                 present.push(id);
             }
+        }
+        // two catalogue histories register more terms than a 16-bit index can hold (even ids from 1000 on;
+        // odd ids stay absent). Edges and annotations still only involve the first ~30 terms.
+        let many_terms = matches!(cat, Some(12) | Some(13));
+        let small = present.len();
+        if many_terms {
+            let extra = if cat == Some(12) { 65_536 - small } else { 66_000 };
+            for i in 0..extra as u32 {
+                present.push(1000 + 2 * i);
+            }
+            out.bucket("history_with_more_than_65535_terms");
         }
         let absent_near = |rng: &mut Rng, present: &[u32]| -> u32 {
             loop {
@@ -116,7 +128,7 @@ impl Monitor for C15 {
             let mut b = b.terms_complete();
 
             // hidden topological order = order of `present`; edges child -> earlier term
-            let n_edge_calls = rng.urange(0, 2 * present.len());
+            let n_edge_calls = rng.urange(0, 2 * present.len().min(40));
             let mut failing_calls = 0u32;
             for _ in 0..n_edge_calls {
                 let fail = fail_rate > 0 && rng.below(10) < fail_rate;
@@ -130,7 +142,7 @@ impl Monitor for C15 {
                     if present.len() < 2 {
                         continue;
                     }
-                    let ci = rng.urange(1, present.len() - 1);
+                    let ci = rng.urange(1, present.len().min(40) - 1);
                     let pi = rng.usize_below(ci);
                     (present[pi], present[ci], "ok")
                 };
